@@ -38,6 +38,7 @@ def run(ck, ctx):
     ck.nd("behaviour for every corruption offset / torn length at run time")
     ck.rule("R10.10", NAME_TEXT)
     ck.rule("R10.11", JUDGE_TEXT)
+    ck.rule("R10.12", WRITER_SEQ_TEXT)
     for cfg in ctx.configs:
         prog = ctx.prog(cfg)
         ck.configs.append(cfg)
@@ -51,6 +52,7 @@ def run(ck, ctx):
         r109(ck, prog, cfg, "R10.9")
         r1010(ck, prog, cfg, "R10.10")
         r1011(ck, prog, cfg, "R10.11")
+        r1012(ck, prog, cfg, "R10.12")
         _bounds.rule(ck, prog, cfg, "R10.7", ("src/streaming/wal.rs",), "a WAL file torn at that offset", floor=6, tag=_tag(cfg))
 
 
@@ -655,4 +657,58 @@ def r1011(ck, prog, cfg, rid):
         ck.check(not bad, rid, "entries:no-branch-on-entry-content" + _tag(cfg),
                  "WalReader::entries branches on the content of a decoded entry (line %s): entries the decoder accepted are skipped or end the walk by "
                  "a criterion the writer does not guarantee" % bad[:3], g.where(bad[0]) if bad else g.where(), detail="loop ends at decode failure / end of data only")
+    ck.floor(rid + _tag(cfg), n, 1)
+
+
+# ------------------------------------------------------------------------------------------------
+WRITER_SEQ_TEXT = ("a writer knows which file it writes: wherever a WAL file is created and a WalWriter is opened on it, the sequence given to "
+                   "WalWriter::new is the sequence the file was named with (the same value, not a field read before it was updated): truncation "
+                   "protects the active file by the *writer's* sequence, so a writer that believes it is file N-1 lets truncate_before delete "
+                   "the file it is appending to")
+
+
+def _seq_value(f, operand, at_block):
+    """provenance of a sequence operand, with a read of a `current_sequence`-like field resolved to the value of the nearest dominating
+    store to that field in the same function (so `self.seq = n; use(self.seq)` and `use(n)` compare equal)"""
+    s_ = src_of_operand(f, operand, through_calls=TRANSPARENT)
+    strict = False
+    for _ in range(4):
+        if s_.kind == "path" and s_.fields and s_.fields[-1].endswith("sequence"):
+            fld = s_.fields[-1]
+            best = None
+            for b, i, st in f.stmts():
+                pr = st["lhs"].get("p", [])
+                fs = [e for e in pr if isinstance(e, dict) and "f" in e]
+                if fs and pr[-1] is fs[-1] and fs[-1]["f"] == fld and f.dominates(b, at_block) and (b != at_block or not strict):
+                    if best is None or f.dominates(best[0], b):
+                        best = (b, st)
+            if best is None:
+                return "field:%s@entry" % fld
+            rv = best[1]["rv"]
+            if rv["k"] != "use":
+                return "store@%d" % best[0]
+            s_ = src_of_operand(f, rv["a"], through_calls=TRANSPARENT)
+            at_block = best[0]
+            strict = True
+            continue
+        break
+    return (s_.kind, s_.local, tuple(s_.fields)) if s_.kind in ("path", "call", "rv", "agg", "multi") else s_.path()
+
+
+def r1012(ck, prog, cfg, rid):
+    n = 0
+    for f in prog.lib_fns():
+        if f.file != "src/streaming/wal.rs" or "::tests::" in f.id:
+            continue
+        names = [(b, t) for b, t in f.calls() if is_callee(t, r"streaming::wal::wal_file_name$") and t["args"]]
+        news = [(b, t) for b, t in f.calls() if is_callee(t, r"WalWriter::<.*>::new$") and len(t["args"]) >= 2]
+        if not names or not news:
+            continue
+        for k, (wb, wt) in enumerate(news):
+            n += 1
+            wv = _seq_value(f, wt["args"][1], wb)
+            nv = [_seq_value(f, t["args"][0], b) for b, t in names if f.dominates(b, wb)]
+            ck.check(wv in nv, rid, "%s:writer-sequence#%d%s" % (f.short, k, _tag(cfg)),
+                     "the WalWriter opened in %s is told a sequence (%s) that is not the one its file was named with (%s)" % (f.short, wv, nv),
+                     f.where(wt["ln"]), detail="WalWriter::new(file, seq) with the seq of wal_file_name(seq)")
     ck.floor(rid + _tag(cfg), n, 1)
